@@ -28,7 +28,6 @@ BITS = {"corr": 1, "c01_new": 2, "c01_kf": 4, "c02": 8, "c09": 16, "not_ok": 32,
 
 # minimal bodies, one per finding class (also the corpus: they run first)
 WITNESSES = {
-    "KF_C01_1": "q[i.j]",                              # slice of a subscript
     "KF_C01_2": "p.m(y.z).n",                          # arguments of a call inside a spine, and that call
     "KF_C01_3": "setattr(p, 'k', v.w)",                # arguments of a getattr-family call
     "KF_C01_4": "def inner(dflt=x.dv):\n    pass",     # defaults / decorators / annotations of a nested def or lambda
